@@ -220,6 +220,8 @@ class Model:
                     tree = ast.parse(src, filename=path)
                 except SyntaxError as err:
                     raise AnalysisError(f'cannot parse {rel}: {err}')
+                from .desugar import desugar
+                tree = desugar(tree)
                 self.modules[name] = Module(
                     name=name, path=path, relpath=rel, source=src, tree=tree,
                     is_package=is_pkg, digest=hashlib.sha256(raw).hexdigest()
